@@ -122,6 +122,26 @@ CLAIMED.update({
         note='the machine abstracts the import protocol; the behavioural half (equal results, no output) is observed, not proved.',
         technique='Coq finite proof over source-derived import actions + fresh-interpreter enumeration'),
 })
+CLAIMED.update({
+    'C06': dict(cat='proof', design='DESIGN.md §7 C06',
+        text='The whole parser (tokenizer over the regenerated token regexes, parse_selectors with every handler, css_unescape, '
+             'process_custom, freeze) is a Gallina function with every Python raising site explicit; the extracted model predicts, '
+             'for every input, the compiled structure or the exception class, line, column and context. Theorems: every token pattern '
+             'consumes at least one character (tokenizer cannot stall); every named group a handler reads unconditionally is set on '
+             'every match (general soundness lemma + computation on the regenerated ASTs); escapes decode to valid code points; '
+             'process_custom raises only SelectorSyntaxError or KeyError. Malformed-input stream compared case by case.',
+        note='the end-to-end totality theorem is not proved (partial): decided per input by model/implementation agreement plus the exception-class oracle.',
+        technique='Coq parser model with explicit exceptions + regex capture/progress lemmas + differential on a malformed stream'),
+    'C07': dict(cat='proof', design='DESIGN.md §7 C07',
+        text='Theorems: single-ended expressions have at most one end; if every repetition body is single-ended the number of ends '
+             '(with multiplicity: the size of the backtracking search) is bounded by a polynomial (n+2)^size, for every subject; holds '
+             'for 28 of the 50 regenerated patterns (every pattern applied to document data). For all 50 and for the attribute patterns '
+             'built at run time: translation validated against the live re objects, an ambiguity search in the model (pump strings, '
+             'capped search-tree size, constant growth ratio = exponential) confirmed by timing the live engine, and compile() timed on '
+             'truncated-construct families.',
+        note='time itself is measured, never proved; 22 token patterns are outside the proved certificate (partial).',
+        technique='Coq polynomial bound on backtracking search of source-translated regexes + model-driven ambiguity search + timing'),
+})
 NOT_YET = {}
 props = [json.loads(l) for l in open(os.path.join(V, 'properties.jsonl'))]
 checks, na = [], []
